@@ -4,6 +4,7 @@ import (
 	"encoding/json"
 	"errors"
 	"fmt"
+	"hash/fnv"
 	"io/fs"
 	"math"
 	"os"
@@ -58,6 +59,7 @@ type Op struct {
 	Qs     [][]Cmp    `json:"qs,omitempty"` // extra query chains evaluated by an obs
 	Close  bool       `json:"close,omitempty"`
 	Create bool       `json:"create,omitempty"`
+	Commit bool       `json:"commit,omitempty"`
 	H      int        `json:"h,omitempty"`
 	Rev    bool       `json:"rev,omitempty"`
 	Lim    int        `json:"lim,omitempty"` // -1 = no Limit call
@@ -65,7 +67,10 @@ type Op struct {
 	Cfg    *Cfg       `json:"cfg,omitempty"`
 	What   string     `json:"what,omitempty"`
 	N      int        `json:"n,omitempty"`
+	K      int        `json:"k,omitempty"` // second collection (aux.go): key and value of an xput
+	A      int        `json:"a,omitempty"`
 	// fault engines
+	Via     string   `json:"via,omitempty"`   // bulk deletes: "iter" = Iterator + DeleteObjects, "call" = DeleteAll / Search.Delete, "" = chosen by position
 	Bad     string   `json:"bad,omitempty"`   // make the object unserialisable: "nan" | "inf" | "chan"
 	Crash   bool     `json:"crash,omitempty"` // enumerate the crash points of this call
 	Fault   int      `json:"fault,omitempty"` // fail the Fault-th file-system call of this call
@@ -88,6 +93,7 @@ type Test struct {
 	NoRecord bool     `json:"norecord,omitempty"`  // race-detector runs: no recording, no synchronisation of the driver's own
 	Adopt    string   `json:"adopt,omitempty"`     // continue on a copy of a golden directory (written by the pinned release)
 	CrashAll bool     `json:"crash_all,omitempty"` // enumerate the crash points of every mutating call
+	Aux      bool     `json:"aux,omitempty"`       // a second collection lives in the same database (aux.go)
 }
 
 // ---------------------------------------------------------------- error classes
@@ -187,6 +193,9 @@ type Runner struct {
 	opi    int
 	recs   []Vals
 	recIdx map[string]int
+	// second collection
+	xslots map[int]string
+	xrev   map[string]int
 }
 
 type ev map[string]interface{}
@@ -345,6 +354,11 @@ func (r *Runner) open(create bool) string {
 			r.lastMsg = err.Error()
 		}
 		c = classify(err)
+		if r.t.Aux {
+			if xc := r.auxCreate(); xc != "ok" {
+				c = "aux-" + xc
+			}
+		}
 	}
 	r.primeFlusher()
 	return c
@@ -386,7 +400,8 @@ func RunTest(t *Test, out *json.Encoder, workdir string) {
 		defer keepGolden(t, root)
 	}
 	r := &Runner{t: t, cfg: t.Cfg, root: root, out: out, slots: map[int]string{}, rev: map[string]int{},
-		seen: map[string]bool{}, used: map[string]map[int]bool{}, qf: t.Fields, lastArg: map[int]sod.Object{}}
+		seen: map[string]bool{}, used: map[string]map[int]bool{}, qf: t.Fields, lastArg: map[int]sod.Object{},
+		xslots: map[int]string{}, xrev: map[string]int{}}
 	hookLog = hookLog[:0]
 	r.ghost = append(r.ghost, uuid.NewString())
 	curRunner = r
@@ -455,8 +470,16 @@ func (r *Runner) header(createClass string) ev {
 		fields[f] = d
 	}
 	return ev{"ev": "hdr", "id": r.t.ID, "c": createClass, "cfg": r.cfg, "schema": fields,
-		"tr":  ev{"V": [][]int{{idxInt(uniV, trVFrom), idxInt(uniV, trVTo)}}, "W": [][]int{{caseLower.encode(trWFrom), caseLower.encode(trWTo)}}},
+		"tr":  ev{"V": trVCodes(), "W": [][]int{{caseLower.encode(trWFrom), caseLower.encode(trWTo)}}},
 		"inv": ev{"V": []int{idxInt(uniV, invV)}, "W": []int{caseLower.encode(invW)}}}
+}
+
+func trVCodes() [][]int {
+	out := [][]int{}
+	for _, t := range trV {
+		out = append(out, []int{idxInt(uniV, t[0]), idxInt(uniV, t[1])})
+	}
+	return out
 }
 
 // call runs one API call with the fault engines armed only for its duration.
@@ -525,9 +548,20 @@ func (r *Runner) step(op *Op) {
 		r.del(op)
 	case "delall":
 		var err error
-		r.call(op, func() { err = r.db.DeleteAll(r.proto()) })
+		via := r.viaIter(op)
+		if via {
+			// the other spelling of the same request: an iterator over the collection handed to DeleteObjects
+			it, e := r.db.Iterator(r.proto())
+			if e != nil {
+				err = e
+			} else {
+				r.call(op, func() { err = r.db.DeleteObjects(it) })
+			}
+		} else {
+			r.call(op, func() { err = r.db.DeleteAll(r.proto()) })
+		}
 		c := classify(err)
-		r.emit(ev{"ev": "delall", "c": c, "fired": r.fired})
+		r.emit(ev{"ev": "delall", "c": c, "fired": r.fired, "iter": via})
 		r.after(op, c)
 	case "delsearch":
 		r.delsearch(op)
@@ -551,9 +585,29 @@ func (r *Runner) step(op *Op) {
 		r.switchCfg(op)
 	case "flush":
 		r.flush(op)
+	case "flushone":
+		r.flushOne(op)
+	case "drop":
+		r.dropOp(op)
+	case "xput":
+		r.xput(op)
+	case "xdel":
+		r.xdel(op)
+	case "xflush":
+		r.xflush(op)
 	default:
 		panic("unknown op " + op.Op)
 	}
+}
+
+// viaIter chooses, deterministically per test and position, the iterator spelling of a bulk delete
+func (r *Runner) viaIter(op *Op) bool {
+	if op.Via != "" {
+		return op.Via == "iter"
+	}
+	h := fnv.New32a()
+	h.Write([]byte(r.t.ID))
+	return (int(h.Sum32()%3)+r.opi)%3 == 0
 }
 
 func (r *Runner) put(op *Op) {
@@ -718,8 +772,13 @@ func (r *Runner) reopen(op *Op) {
 		r.retireFlushers()
 	}
 	recs := r.recs
-	cc := r.open(op.Create)
-	r.emit(ev{"ev": "reopen", "close": op.Close, "create": op.Create, "c": c, "cc": cc, "msg": r.lastMsg, "dir": dir, "recs": recs})
+	e := ev{"ev": "reopen", "close": op.Close, "create": op.Create, "c": c, "dir": dir, "recs": recs}
+	if r.t.Aux {
+		e["xdir"] = r.xwalk()
+	}
+	e["cc"] = r.open(op.Create)
+	e["msg"] = r.lastMsg
+	r.emit(e)
 }
 
 func (r *Runner) flush(op *Op) {
@@ -735,6 +794,66 @@ func (r *Runner) flush(op *Op) {
 	r.recs, r.recIdx = []Vals{}, map[string]int{}
 	dir := r.walk()
 	r.emit(ev{"ev": "flush", "what": op.What, "c": classify(err), "dir": dir, "recs": r.recs})
+}
+
+// dropOp: Drop() on the live handle, two reads while nothing exists, then Create (possibly with other
+// cache / async settings) on the same handle.
+func (r *Runner) dropOp(op *Op) {
+	c := r.cfg
+	if op.Cfg != nil {
+		c.Cache, c.Async = op.Cfg.Cache, op.Cfg.Async
+	}
+	dc := classify(r.db.Drop())
+	n, cerr := r.db.Count(r.proto())
+	objs, aerr := r.db.All(r.proto())
+	probe := ev{"count_c": classify(cerr), "count": n, "all_c": classify(aerr), "all_n": len(objs)}
+	r.cfg = c
+	cc := classify(r.db.Create(r.proto(), r.schema()))
+	if r.t.Aux {
+		if xc := r.auxCreate(); xc != "ok" {
+			cc = "aux-" + xc
+		}
+	}
+	r.hands = map[int]*sod.Search{}
+	r.recs, r.recIdx = []Vals{}, map[string]int{}
+	dir := r.walk()
+	e := ev{"ev": "drop", "c": dc, "probe": probe, "cc": cc, "cfg": r.cfg, "dir": dir, "recs": r.recs}
+	if r.t.Aux {
+		e["xdir"] = r.xwalk()
+	}
+	r.emit(e)
+}
+
+// flushOne: Flush(o) / FlushAndCommit(o).  The object handed over only identifies what to flush; three
+// spellings of it: the very object last passed to a write of that slot ("same": by now possibly rejected
+// or scribbled over), a copy with the accepted identity and other, invalid, values ("dirty"), an object
+// carrying nothing but the identifier ("blank").  For a slot that was never stored a ghost identifier.
+func (r *Runner) flushOne(op *Op) {
+	u, bound := r.slots[op.Slot]
+	if !bound {
+		u = r.ghost[0]
+	}
+	var o sod.Object
+	if op.What == "same" && r.lastArg[op.Slot] != nil {
+		o = r.lastArg[op.Slot]
+	}
+	if o == nil {
+		o = r.proto()
+		o.Initialize(u)
+		if op.What == "dirty" {
+			rec := asRec(o)
+			rec.K, rec.A, rec.S, rec.V, rec.W = 424242, 4242, "Dirty", invV, invW
+		}
+	}
+	var err error
+	if op.Commit {
+		err = r.db.FlushAndCommit(o)
+	} else {
+		err = r.db.Flush(o)
+	}
+	r.recs, r.recIdx = []Vals{}, map[string]int{}
+	dir := r.walk()
+	r.emit(ev{"ev": "flushone", "slot": op.Slot, "bound": bound, "commit": op.Commit, "what": op.What, "c": classify(err), "dir": dir, "recs": r.recs})
 }
 
 // ---------------------------------------------------------------- probes and searches
@@ -827,9 +946,20 @@ func (r *Runner) delsearch(op *Op) {
 	s := r.runQuery(op.Q)
 	n := s.Len()
 	var err error
-	r.call(op, func() { err = s.Delete() })
+	via := r.viaIter(op)
+	if via {
+		// the other spelling: the search's iterator handed to DeleteObjects
+		it, e := s.Iterator()
+		if e != nil {
+			err = e
+		} else {
+			r.call(op, func() { err = r.db.DeleteObjects(it) })
+		}
+	} else {
+		r.call(op, func() { err = s.Delete() })
+	}
 	c := classify(err)
-	r.emit(ev{"ev": "delsearch", "q": qjson(op.Q), "c": c, "len": n, "fired": r.fired})
+	r.emit(ev{"ev": "delsearch", "q": qjson(op.Q), "c": c, "len": n, "fired": r.fired, "iter": via})
 	r.after(op, c)
 }
 
@@ -940,17 +1070,21 @@ func (r *Runner) probesFor(f string) []int {
 
 // ---------------------------------------------------------------- virtual clock (C10, C17)
 
-// settle waits (bounded, real time) until the flusher goroutines are parked in Sleep.
-func settle(want int) {
-	deadline := time.Now().Add(500 * time.Millisecond)
+// settle waits (real time) until the flusher goroutines are parked in Sleep.  The bound is generous: on a
+// loaded machine a goroutine may be kept off the CPU for a long time, and returning early would make the
+// driver observe the directory before the flusher has taken its decision.  It returns at once when the
+// condition holds, so the bound only matters when something is wrong: a flusher that has not parked after
+// 20 s does not exist or is blocked, and the step is judged as it is (the event says "settled": false).
+func settle(want int) bool {
+	deadline := time.Now().Add(20 * time.Second)
 	for time.Now().Before(deadline) {
 		n, _ := vtime.Sleepers()
 		if n >= want {
-			// parked; give a just-woken goroutine the time to take its next decision
-			return
+			return true
 		}
 		time.Sleep(100 * time.Microsecond)
 	}
+	return false
 }
 
 // tick advances the virtual clock by one poll period (100 ms) of the flusher and waits until the
@@ -961,20 +1095,21 @@ func (r *Runner) tick(op *Op) {
 	if n <= 0 {
 		n = 1
 	}
+	settled := true
 	for i := 0; i < n; i++ {
 		if r.cfg.Async {
-			settle(1)
+			settled = settle(1) && settled
 		}
 		sl, p0 := vtime.Sleepers()
 		vtime.Advance(100 * time.Millisecond)
 		if sl > 0 {
-			vtime.WaitParked(p0+int64(sl)-1, 2*time.Second)
-			settle(sl)
+			settled = vtime.WaitParked(p0+int64(sl)-1, 20*time.Second) >= p0+int64(sl) && settled
+			settled = settle(sl) && settled
 		}
 	}
 	r.recs, r.recIdx = []Vals{}, map[string]int{}
 	fl, _ := vtime.Sleepers()
-	e := ev{"ev": "tick", "n": n, "dir": r.walk(), "fl": fl}
+	e := ev{"ev": "tick", "n": n, "dir": r.walk(), "fl": fl, "settled": settled}
 	e["recs"] = r.recs
 	r.emit(e)
 }
